@@ -26,6 +26,10 @@ CLAIMED = {
          'syncx.Limit with capacity and occupancy as solver variables (channel in symbolic-counter mode): one TryBorrow/Return/Borrow from an arbitrary state 0<=c<=n, inductive over histories and interleavings; MaxConnsHandler for every n and every number already inside, inner handler returning or panicking; TimeoutLimit.Borrow(timeout) racing with Returns and the timer, TaskRunner (Schedule/ScheduleImmediately/Wait, panicking tasks) and Pool (Get/Put, maxAge, symbolic clock) under all interleavings of 2-4 goroutines.',
          'go/ssa translation, gosym, z3; sync.Mutex/Cond/WaitGroup and channels modelled natively by the engine scheduler; capacity 1..2 and at most 3 tasks/users for TaskRunner/Pool/TimeoutLimit; MapReduce worker caps belong to the C10 harness.',
          'SSA symbolic execution + SMT (z3), channel-as-symbolic-counter induction + scheduler with sleep sets'),
+ 'C19': ('DESIGN.md §4 C19',
+         'Symbolic execution of the real RedisLock.AcquireCtx/ReleaseCtx/SetExpire (go/ssa) together with lockscript.lua and delscript.lua (read from the tree, run by the engine Lua-subset evaluator on a Redis model): one step from an arbitrary state (key absent or held by an arbitrary id with arbitrary remaining lease, clock advance symbolic, lease seconds any uint32, 3 instances), store faults and cancelled contexts, and 3-4 step histories against a ghost (holder, expiry).',
+         'go/ssa translation, gosym, Lua-5.1-subset evaluator and single-node Redis model (trusted, engine-native: GET/SET NX PX EX/SETEX/DEL/INCRBY/EXPIRE/TTL, lazy expiry on the virtual clock, scripts atomic), z3; distinct instances have distinct ids (assumption); go-redis/RESP conversions per the documented tables.',
+         'SSA symbolic execution + SMT (z3) with a Lua front-end over a Redis model; one-step induction + bounded histories'),
 }
 
 NA = {
